@@ -75,8 +75,8 @@ def branch(ctx):
             continue
         n_iter += 1
         # first condition after the iterator's Some must be Eq(e.fd(), kill_fd)
-        idx = [i for i, (t, c, _b) in enumerate(lf.conds) if t[0] == "discr" and is_call(look(t[1]), "next")]
-        first = lf.conds[idx[-1] + 1] if idx and idx[-1] + 1 < len(lf.conds) else None
+        idx = [i for i, (t, c, _b) in enumerate(lf.conds) if t[0] == "discr" and is_call(look(t[1]), "next") and norm(look(t[1])) == norm(ev)]
+        first = lf.conds[idx[0] + 1] if idx and idx[0] + 1 < len(lf.conds) else None
         ok = False
         tv = None
         if first is not None:
